@@ -19,6 +19,7 @@ From V Require Import Spec.SpSpec.
 From V Require Import Gen.Nodes Gen.TableRows Spec.Valid.
 From V Require Import Gen.CmGen Model.Cm Spec.CmSpec.
 From V Require Import Spec.SourcePos Spec.SourcePosKnown.
+From V Require Import Base.Regex Base.Re2c Gen.ScannersRe Model.Scan.
 From V Require Import Spec.Doc.
 From V Require Import Gen.Consts Model.Caps.
 From V Require Import Gen.Special Model.Special Spec.Triggers.
@@ -201,6 +202,45 @@ Extraction "model.ml"
   SourcePos.sp_nested
   SourcePos.sp_slice_ok
   SourcePosKnown.classify
+  Scan.scan_atx_heading_start
+  Scan.scan_html_block_end_1
+  Scan.scan_html_block_end_2
+  Scan.scan_html_block_end_3
+  Scan.scan_html_block_end_4
+  Scan.scan_html_block_end_5
+  Scan.scan_alert_start
+  Scan.scan_open_code_fence
+  Scan.scan_close_code_fence
+  Scan.scan_html_block_start
+  Scan.scan_html_block_start_7
+  Scan.scan_setext_heading_line
+  Scan.scan_footnote_definition
+  Scan.scan_scheme
+  Scan.scan_autolink_uri
+  Scan.scan_autolink_email
+  Scan.scan_html_tag
+  Scan.scan_html_comment
+  Scan.scan_html_processing_instruction
+  Scan.scan_html_declaration
+  Scan.scan_html_cdata
+  Scan.scan_spacechars
+  Scan.scan_link_title
+  Scan.scan_dangerous_url
+  Scan.scan_table_start
+  Scan.scan_table_cell
+  Scan.scan_table_cell_end
+  Scan.scan_table_row_end
+  Scan.scan_shortcode
+  Scan.scan_open_multiline_block_quote_fence
+  Scan.scan_close_multiline_block_quote_fence
+  Scan.scan_tasklist
+  Scan.scan_description_item_start
+  Regex.re_size
+  Regex.deriv_all
+  Regex.matchb
+  Regex.longest_match
+  Re2c.rule_re
+  ScannersRe.scanner_rules
   Doc.canonical
   Doc.write
   Doc.ref_html
